@@ -543,6 +543,58 @@ def install_stub(st, sname, ret=None, inputs_json=None):
     return patched
 
 
+def shared_mutable_object(values):
+    """a Door or Box instance (the grid objects with mutable attributes) that is reachable along two different paths
+    from the given states / grids / agents, or None"""
+    try:
+        from gym_gridverse.agent import Agent
+        from gym_gridverse.grid import Grid
+        from gym_gridverse.grid_object import Box, Door
+    except Exception:
+        return None
+    seen = {}
+
+    def visit_obj(o, where):
+        while isinstance(o, (Door, Box)):
+            if id(o) in seen and seen[id(o)] != where:
+                return f'{o!r} is both at {seen[id(o)]} and at {where}'
+            seen[id(o)] = where
+            if not isinstance(o, Box):
+                break
+            o, where = o.content, where + '.content'
+        return None
+
+    def visit(v, tag, done):
+        if id(v) in done:
+            return None
+        done.add(id(v))
+        if isinstance(v, Grid):
+            for y, row in enumerate(v.objects):
+                for x, o in enumerate(row):
+                    r = visit_obj(o, f'{tag}[{y},{x}]')
+                    if r:
+                        return r
+            return None
+        if isinstance(v, Agent):
+            return visit_obj(v.grid_object, f'{tag}.grid_object')
+        if hasattr(v, 'grid') and hasattr(v, 'agent'):
+            return visit(v.grid, tag + '.grid', done) or visit(v.agent, tag + '.agent', done)
+        if isinstance(v, (list, tuple)):
+            for k, x in enumerate(v):
+                r = visit(x, f'{tag}[{k}]', done)
+                if r:
+                    return r
+        return None
+
+    # each top-level value is its own universe: an output state may legitimately hold the very objects of its input
+    for k, v in enumerate(values):
+        seen.clear()
+        r = visit(v, f'value{k}', set())
+        if r:
+            return r
+    return None
+
+
 def run_contract(spec, inputs_json, only=None):
     import pyvc_rt
     st = pyvc_rt._State()
@@ -618,6 +670,11 @@ def run_contract(spec, inputs_json, only=None):
     if global_random_state() != snap0:
         st.clauses.append(('implicit:no-global-state-no-hidden-randomness', False,
                            'a global random source (numpy.random / random / gym_gridverse.rng._gv_rng) changed'))
+    dup = shared_mutable_object(list(vals.values()) + [st.result])
+    if dup is not None:
+        # trusted-base item T5 of the symbolic model, checked on the real objects: the inputs are built from fresh
+        # objects, so a mutable grid object reachable twice afterwards was put there by the code under contract
+        st.clauses.append(('implicit:no-mutable-grid-object-in-two-places', False, dup))
 
     def possible_hook(rng, thunk):
         import itertools
